@@ -300,6 +300,103 @@ apply: (@ri_ppropP _ _ 1) => //; rewrite ?scale1r ?Poly_pderiv ?pE //.
 by rewrite -pE -Poly_pderiv.
 Qed.
 
+(* ====================================================================== libpoly's reduce_Z *)
+(* ---- upolynomial_dense_reduce_Z (faithful model lp_reduce_Z) over {poly Z} *)
+
+Lemma coef_monomM (c : Z) (k : nat) (q : {poly Z}) (j : nat) :
+  ((c *: 'X^k) * q)`_j = if (j < k)%N then 0 else c * q`_(j - k).
+Proof. by rewrite -scalerAl coefZ coefXnM; case: ltnP => _; rewrite ?mulr0. Qed.
+
+Lemma Poly_shift_scale (k : nat) (c : Z) (q : seq Z) : Poly (pshift k (pscale c q)) = (c *: 'X^k) * Poly q.
+Proof. by rewrite Poly_pshift Poly_pscale -!scalerAl mulrC. Qed.
+
+Lemma size_monomM (c : Z) (n : nat) (Q : {poly Z}) : Q != 0 ->
+  (size (((c *: 'X^n) * Q)%R) <= (size Q).-1 + n.+1)%N.
+Proof.
+move=> Q0; have sq : (0 < size Q)%N by rewrite size_poly_gt0.
+apply: leq_trans (size_mul_leq _ _) _.
+have := size_scale_leq c ('X^n : {poly Z}); rewrite size_polyXn.
+by move: (size (c *: 'X^n)) (size Q) sq => a b; lia.
+Qed.
+
+Lemma List_nthE (l : seq Z) (k : nat) : List.nth k l 0 = nth 0 l k.
+Proof. by elim: l k => [|a l IH] [|k] /=. Qed.
+
+(* loop invariant: m * P = D * Q + Red with m <> 0 and size Red <= qd + n *)
+Lemma lp_reduce_loopP (n : nat) (q : seq Z) (P : {poly Z}) (m : Z) (red : seq Z) (D : {poly Z}) :
+  Poly q != 0 -> m != 0 -> m *: P = D * Poly q + Poly red ->
+  (size (Poly red) <= (size (Poly q)).-1 + n)%N ->
+  let res := lp_reduce_loop n (size (Poly q)).-1 q (lead_coef (Poly q)) m red in
+  [/\ res.1 != 0, exists D', res.1 *: P = D' * Poly q + Poly res.2
+    & (size (Poly res.2) < size (Poly q))%N].
+Proof.
+move=> q0; have sq : (0 < size (Poly q))%N by rewrite size_poly_gt0.
+have lq0 : lead_coef (Poly q) != 0 by rewrite lead_coef_eq0.
+set qd := (size (Poly q)).-1; set lq := lead_coef (Poly q).
+elim: n m red D => [|n IH] m red D m0 E sz /=; rewrite ?List_nthE ?plusE.
+  split=> //; first by exists D.
+  by rewrite /qd in sz; move: (size (Poly red)) (size (Poly q)) sz sq => a b; lia.
+have cE : nth 0 red (qd + n) = (Poly red)`_(qd + n) by rewrite coef_Poly.
+have lqE : lq = (Poly q)`_qd by rewrite /lq lead_coefE.
+(* a polynomial of size <= k+1 whose coefficient k vanishes has size <= k *)
+have shrink (r : {poly Z}) : (size r <= qd + n.+1)%N -> r`_(qd + n) = 0 -> (size r <= qd + n)%N.
+  move=> sr r0; apply/leq_sizeP => j; rewrite leq_eqVlt => /orP[/eqP <- //|lt].
+  by apply/leq_sizeP: lt; rewrite -addnS.
+case: Z.eqb_spec => [c0|/eqP c0].
+  by apply: IH E _ => //; apply: shrink => //; rewrite -cE c0.
+case: Z.eqb_spec => [dv|ndv].
+  (* lc(q) divides the coefficient *)
+  have cq : nth 0 red (qd + n) = Z.quot (nth 0 red (qd + n)) lq * lq.
+    have [k kE] : Z.divide lq (nth 0 red (qd + n)) by apply/Z.mod_divide => //; exact/eqP.
+    by rewrite kE Z.quot_mul //; exact/eqP.
+  apply: (IH _ _ (D + (Z.quot (nth 0 red (qd + n)) lq) *: 'X^n)) => //.
+    by rewrite Poly_psub Poly_shift_scale mulrDl E addrACA subrr addr0.
+  apply: shrink.
+    rewrite Poly_psub Poly_shift_scale; apply: leq_trans (size_add _ _) _; rewrite size_opp geq_max sz /=.
+    exact: size_monomM.
+  rewrite Poly_psub Poly_shift_scale coefB coef_monomM ltnNge leq_addl /= addnK -lqE -cE.
+  by rewrite -cq subrr.
+(* lcm scaling *)
+set c := nth 0 red (qd + n) in c0 ndv cE *.
+have lcm0 : Z.lcm c lq != 0.
+  by apply/eqP => /Z.lcm_eq_0 [] /eqP; rewrite ?(negPf c0) ?(negPf lq0).
+have [k1 k1E] := Z.divide_lcm_l c lq; have [k2 k2E] := Z.divide_lcm_r c lq.
+have rmE : Z.div (Z.lcm c lq) c = k1 by rewrite k1E Z.div_mul //; exact/eqP.
+have mE : Z.div (Z.lcm c lq) lq = k2 by rewrite k2E Z.div_mul //; exact/eqP.
+have k10 : k1 != 0 by apply: contra_neq lcm0 => k0; rewrite k1E k0.
+rewrite rmE mE.
+apply: (IH _ _ (k1 *: D + k2 *: 'X^n)) => //.
+- by rewrite mulf_neq0.
+- rewrite Poly_psub Poly_shift_scale Poly_pscale mulrDl addrACA subrr addr0.
+  have -> : Z.mul m k1 = k1 * m by rewrite mulrC.
+  by rewrite -scalerA E scalerDr scalerAl.
+apply: shrink.
+  rewrite Poly_psub Poly_shift_scale Poly_pscale; apply: leq_trans (size_add _ _) _; rewrite size_opp geq_max.
+  rewrite (leq_trans (size_scale_leq _ _) sz) /=.
+  exact: size_monomM.
+rewrite Poly_psub Poly_shift_scale Poly_pscale coefB coefZ coef_monomM ltnNge leq_addl /= addnK -lqE -cE.
+by apply/eqP; rewrite subr_eq0; apply/eqP; move: k1E k2E; move: (Z.lcm c lq) => L; lia.
+Qed.
+
+Lemma lp_reduce_ZP (a b : seq Z) : Poly b != 0 -> (size (Poly b) <= size (Poly a))%N ->
+  [/\ (lp_reduce_Z a b).1 != 0,
+      exists D, (lp_reduce_Z a b).1 *: Poly a = D * Poly b + Poly (lp_reduce_Z a b).2
+    & (size (Poly (lp_reduce_Z a b).2) < size (Poly b))%N].
+Proof.
+move=> b0 sba; have sb : (0 < size (Poly b))%N by rewrite size_poly_gt0.
+rewrite /lp_reduce_Z.
+have b0' : Poly (pnorm b) != 0 by rewrite Poly_pnorm.
+have E : (1 : Z) *: Poly a = 0 * Poly (pnorm b) + Poly (pnorm a) by rewrite scale1r mul0r add0r Poly_pnorm.
+have sz : (size (Poly (pnorm a)) <= (size (Poly (pnorm b))).-1 + ((length (pnorm a)).-1.+1 - (length (pnorm b)).-1))%N.
+  rewrite !Poly_pnorm -!size_Poly_pnorm.
+  by move: (size (Poly a)) (size (Poly b)) sba sb => m n; lia.
+have := lp_reduce_loopP b0' (oner_neq0 _) E sz.
+have h1 : (size (Poly (pnorm b))).-1 = (length (pnorm b)).-1 by rewrite size_Poly_pnorm pnorm_idem.
+have h2 : lead_coef (Poly (pnorm b)) = List.last (pnorm b) 0 by rewrite lead_coef_plc /plc pnorm_idem.
+rewrite h1 h2 -minusE.
+by case: lp_reduce_loop => m red /=; rewrite !Poly_pnorm.
+Qed.
+
 Section Morph.
 Variable R : rcfType.
 
@@ -1042,6 +1139,9 @@ Theorem lp_count_roots_repaired_cond (J : ri_itv) : (0 < qlo_d J)%R -> (0 < qhi_
   lp_count_roots_gen true S (Some J) = Z.of_nat (count (in_qitv J) (rootsR (PR s0))).
 Proof.
 move=> l0 h0 lh; rewrite /lp_count_roots_gen -/s0.
+have -> : Z.eqb (Z.mul (qlo_n J) (qhi_d J)) (Z.mul (qhi_n J) (qlo_d J)) = false.
+  by move: lh; rewrite QR_lt // /riq_lt => /Z.ltb_lt ?; apply/Z.eqb_neq; lia.
+rewrite /=.
 have -> : length S = size S by [].
 rewrite (sturm_oc_correct l0 h0 lh) /=.
 have uxs : uniq (rootsR (PR s0)).
@@ -1062,5 +1162,162 @@ Proof. by move=> f0; rewrite /certified_count sturm_chain_certified. Qed.
 
 Theorem count_real_roots_correct f : ~~ pis_zero f -> count_real_roots f = size (rootsR (PR f)).
 Proof. by move=> f0; apply: certified_count_correct; rewrite certified_count_total. Qed.
+
+(* ====================================================================== libpoly's Sturm sequence (faithful model) *)
+
+Lemma rootsRZ (c : R) (p : {poly R}) : c != 0 -> rootsR (c *: p) = rootsR p.
+Proof.
+move=> c0; have [->|p0] := eqVneq p 0; first by rewrite scaler0.
+rewrite -(@rootsRP _ (c *: p) (- cauchy_bound p) (cauchy_bound p)) ?rootsZ //.
+  by move=> x xin; rewrite rootZ //; apply: le_cauchy_bound.
+by move=> x xin; rewrite rootZ //; apply: ge_cauchy_bound.
+Qed.
+
+Lemma PR_ppos_prim s : PR s != 0 -> PR (ppos_prim s) != 0 /\ ppos (PR s) (PR (ppos_prim s)).
+Proof.
+rewrite PR_eq0 => s0.
+have s0' : Poly s != 0 by apply/negP => /eqP/pis_zeroP; rewrite (negPf s0).
+have [cpos sE] := ppos_primP s0'.
+have E : PR s = ZtoR (pcontent s) *: PR (ppos_prim s) by rewrite -PR_pscale /PR Poly_pscale -sE.
+have c0 : 0 < ZtoR (pcontent s) by rewrite ZtoR_gt0.
+split; last by exists (ZtoR (pcontent s)).
+by apply/eqP => pp0; move: s0; rewrite -PR_eq0 E pp0 scaler0 eqxx.
+Qed.
+
+Lemma ZltbE (x y : Z) : Z.ltb x y = (x < y).
+Proof. by []. Qed.
+
+Definition psigned (p : seq Z) : seq Z := if Z.ltb (plc p) Z0 then pneg p else p.
+
+Lemma pppE p : ppp p = psigned (ppos_prim p).
+Proof. by rewrite /ppp /ppos_prim /psigned; case: Z.eqb_spec. Qed.
+
+(* pp(p): positive leading coefficient, a positive multiple of p or of -p according to the sign of lc(p) *)
+Lemma PR_ppp p : PR p != 0 ->
+  [/\ PR (ppp p) != 0, 0 < lead_coef (PR (ppp p))
+    & ppos (PR (ppp p)) (if lead_coef (PR p) < 0 then - PR p else PR p)].
+Proof.
+move=> p0; have [q0 pq] := PR_ppos_prim p0.
+have sl := ppos_lead pq.
+rewrite pppE /psigned ZltbE -ZtoR_lt0 -lead_coef_PR.
+have lq0 : lead_coef (PR (ppos_prim p)) != 0 by rewrite lead_coef_eq0.
+have -> : (lead_coef (PR p) < 0) = (lead_coef (PR (ppos_prim p)) < 0).
+  by rewrite -sgr_lt0 sl sgr_lt0.
+case: ifP => lt.
+  rewrite PR_pneg oppr_eq0 q0 lead_coefN oppr_gt0 lt; split=> //.
+  exact/ppos_opp/ppos_sym.
+split=> //; last exact: ppos_sym.
+by rewrite lt_neqAle eq_sym lq0 leNgt lt.
+Qed.
+
+Lemma modp_const (p c : {poly R}) : size c = 1%N -> p %% c = 0.
+Proof. by move=> /eqP/size_poly1P [k k0 ->]; rewrite modpC. Qed.
+
+(* one step of upolynomial_compute_sturm_sequence: the sign correction makes the new element a POSITIVE multiple
+   of -(prev mod cur) *)
+Lemma lp_stepP prev cur : PR cur != 0 -> (size (PR cur) <= size (PR prev))%N ->
+  let mr := lp_reduce_Z prev cur in
+  let s := if Z.ltb Z0 mr.1 then pneg (ppos_prim mr.2) else ppos_prim mr.2 in
+  [/\ (size (PR mr.2) < size (PR cur))%N,
+      pis_zero mr.2 -> PR prev %% PR cur = 0
+    & ~~ pis_zero mr.2 -> [/\ PR s != 0, size (PR s) = size (PR mr.2) & ppos (PR s) (- (PR prev %% PR cur))]].
+Proof.
+move=> c0 sz mr s.
+have c0' : Poly cur != 0 by apply/negP => /eqP/pis_zeroP; rewrite -PR_eq0 (negPf c0).
+have sz' : (size (Poly cur) <= size (Poly prev))%N by move: sz; rewrite !size_PR !size_Poly_pnorm => h; exact: h.
+have [m0 [D E] szr] := lp_reduce_ZP c0' sz'; rewrite -/mr in m0 E szr.
+have ER : ZtoR mr.1 *: PR prev = map_poly ZtoR D * PR cur + PR mr.2.
+  by have := congr1 (map_poly ZtoR) E; rewrite rmorphD rmorphM /= map_polyZ.
+have szrR : (size (PR mr.2) < size (PR cur))%N by move: szr; rewrite !size_PR !size_Poly_pnorm => h; exact: h.
+have M0 : ZtoR mr.1 != 0 by rewrite ZtoR_eq0.
+have redE : PR mr.2 = ZtoR mr.1 *: (PR prev %% PR cur) by rewrite -modpZl; exact: modpP ER szrR.
+split=> //.
+  by rewrite -PR_eq0 redE scaler_eq0 (negPf M0) /= => /eqP.
+rewrite -PR_eq0 => r0; have [pp0 rpp] := PR_ppos_prim r0.
+have [k k0 kE] := ppos_sym rpp.
+have sE : PR s = (if Z.ltb Z0 mr.1 then - k else k) *: PR mr.2.
+  by rewrite /s; case: ifP => _; rewrite ?PR_pneg kE ?scaleNr.
+split.
+- by rewrite /s; case: ifP => _; rewrite ?PR_pneg ?oppr_eq0.
+- by rewrite /s; case: ifP => _; rewrite ?PR_pneg ?size_opp (ppos_size (ppos_sym rpp)).
+rewrite sE redE scalerA; case: ifP => [/Z.ltb_lt mpos|/Z.ltb_ge mneg].
+  rewrite mulNr scaleNr -scalerN; apply: ppos_scale.
+  by rewrite mulr_gt0 // ZtoR_gt0; apply/idP; lia.
+rewrite -[k * _]opprK -mulrN scaleNr -scalerN; apply: ppos_scale.
+rewrite mulr_gt0 // oppr_gt0 ZtoR_lt0; apply/idP.
+by move/eqP: m0 => m0; lia.
+Qed.
+
+Lemma lp_loop_cons fuel prev cur : exists l, lp_sturm_loop fuel prev cur = cur :: l.
+Proof.
+case: fuel => [|f] /=; first by exists [::].
+case: Nat.leb; first by exists [::].
+case: lp_reduce_Z => a red; case: pis_zero; first by exists [::].
+by eexists.
+Qed.
+
+Lemma lp_loop_links fuel prev cur : PR prev != 0 -> PR cur != 0 ->
+  (size (PR cur) <= size (PR prev))%N -> (size (PR cur) <= fuel.+1)%N ->
+  Rlinks (map PR (prev :: lp_sturm_loop fuel prev cur)).
+Proof.
+have base p c : PR c != 0 -> (size (PR c) <= 1)%N -> Rlinks (map PR [:: p; c]).
+  move=> c0 sc /=; split=> //; split=> //; apply: modp_const.
+  by apply/eqP; rewrite eqn_leq sc size_poly_gt0.
+elim: fuel prev cur => [|f IH] prev cur p0 c0 scp scf; first exact: base.
+rewrite [lp_sturm_loop _ _ _]/=.
+case: (boolP (Nat.leb _ _)) => [/Nat.leb_le le1|_].
+  by apply: base => //; rewrite size_PR; apply/ssrnat.leP.
+have [szr zr nzr] := lp_stepP c0 scp.
+case E: (lp_reduce_Z prev cur) zr nzr szr => [a red] /= zr nzr szr.
+case: (boolP (pis_zero red)) => [/zr z|/nzr [s0 ss sp]].
+  by rewrite /=; split.
+set s := (if Z.ltb Z0 a then _ else _) in s0 ss sp *.
+have [l lE] := lp_loop_cons f cur s.
+have := IH cur s c0 s0; rewrite lE ss => /(_ (ltnW szr)) H.
+rewrite /=; split; first by split.
+apply: H.
+by move: (size (PR red)) (size (PR cur)) szr scf => m n; lia.
+Qed.
+
+Lemma lead_coef_deriv_gt0 (p : {poly R}) : (1 < size p)%N -> 0 < lead_coef p -> 0 < lead_coef p^`().
+Proof.
+move=> sp lp; rewrite lead_coefE size_deriv coef_deriv.
+have -> : (size p).-1.-1.+1 = (size p).-1 by move: (size p) sp => n; lia.
+by rewrite -lead_coefE pmulrn_lgt0 //; move: (size p) sp => n; lia.
+Qed.
+
+(* libpoly's Sturm sequence (repaired model) has the whole-line sign-variation property, for every
+   non-constant integer polynomial - square-free or not, any sign of the leading coefficient, any content *)
+Theorem lp_sturm_sequence_correct f : (1 < size (PR f))%N ->
+  (sturm_var (lp_sturm_sequence f) MInf - sturm_var (lp_sturm_sequence f) PInf)%N = size (rootsR (PR f)).
+Proof.
+move=> sf; have f0 : PR f != 0 by rewrite -size_poly_gt0 (ltn_trans _ sf).
+rewrite /lp_sturm_sequence; set s0 := ppp f; set s1 := ppp (pderiv s0).
+have [s00 ls0 ps0] := PR_ppp f0; rewrite -/s0 in s00 ls0 ps0.
+have szs0 : size (PR s0) = size (PR f).
+  by rewrite (ppos_size ps0); case: ifP => _ //; rewrite size_opp.
+have d0 : PR (pderiv s0) != 0.
+  by rewrite PR_pderiv -size_poly_gt0 size_deriv szs0; move: (size (PR f)) sf => n; lia.
+have [s10 ls1 ps1] := PR_ppp d0; rewrite -/s1 in s10 ls1 ps1.
+have ld : 0 < lead_coef (PR (pderiv s0)).
+  by rewrite PR_pderiv lead_coef_deriv_gt0 // szs0.
+rewrite ltNge (ltW ld) /= in ps1.
+have szs1 : (size (PR s1) <= size (PR s0))%N.
+  by rewrite (ppos_size ps1) PR_pderiv size_deriv leq_pred.
+have lk : Rlinks (map PR (s0 :: lp_sturm_loop (length s0) s0 s1)).
+  apply: lp_loop_links => //.
+  apply: leq_trans szs1 _; rewrite size_PR.
+  have : (size (pnorm s0) <= size s0)%N.
+    by rewrite -polyseq_Poly_pnorm; apply: size_Poly.
+  by move=> h; apply: leq_trans h _.
+have [l lE] := lp_loop_cons (length s0) s0 s1; rewrite lE in lk *.
+have st : pposs (map PR (s0 :: s1 :: l)) (mods (PR s0) (PR s0)^`()).
+  apply: Rlinks_mods => //; first exact: ppos_refl.
+  by rewrite -PR_pderiv.
+have nz : all (fun p => PR p != 0) (s0 :: s1 :: l).
+  by have := pposs_neq0 st (mods_neq0 _ _); rewrite all_map.
+rewrite sturm_var_minf // sturm_var_pinf // -(pposs_count st).
+have [c c0 ->] := ps0; case: ifP => _; rewrite ?rootsRZ ?rootsRN ?scalerN ?rootsRN ?rootsRZ //; exact: lt0r_neq0.
+Qed.
 
 End Morph.
